@@ -6,11 +6,25 @@ EXTENDS Integers, Sequences, TLC, Json, Waits
 Trace == ndJsonDeserialize("trace.ndjson")
 VARIABLES l
 TInit == l = 1
+e_kind(e) == IF "kind" \in DOMAIN e THEN e.kind ELSE "c05"
 Ok(e) == /\ ~e.out.panic
          /\ Len(e.out.waits) > 0
          /\ \A k \in 1..Len(e.out.waits) : AllowedWait(e.in.i, e.in.min, e.in.max, e.out.waits[k])
+\* loop level with a slow consumer: after hand-over k the loop chooses wait w (index k) and offers the next request at
+\* T_k + w; the consumer takes it when it is ready itself (stall after the previous hand-over), so the gap between two
+\* hand-overs is max(w, stall) for an allowed w - never less, whatever the previous hand-over cost
+LowestAllowed(i, mn) == IF i < InitCount /\ RoundSec(mn) > InitCap THEN InitCap ELSE RoundSec(mn)
+LoopOk(e) == /\ ~e.out.panic
+             /\ Len(e.out.times) = e.in.n
+             /\ \A k \in 1..(Len(e.out.times) - 1) :
+                  LET gap == e.out.times[k + 1] - e.out.times[k]
+                      key == ToString(k)
+                      stall == IF key \in DOMAIN e.in.stalls THEN e.in.stalls[key] ELSE 0 IN
+                  /\ gap >= stall
+                  /\ \/ AllowedWait(k - 1, e.in.min, e.in.max, gap)
+                     \/ (gap = stall /\ stall >= LowestAllowed(k - 1, e.in.min))
 TNext == /\ l <= Len(Trace)
-         /\ IF Ok(Trace[l]) THEN TRUE ELSE PrintT(ToJson([viol |-> "c05-wait", id |-> Trace[l].id, line |-> l]))
+         /\ IF (IF e_kind(Trace[l]) = "c05loop" THEN LoopOk(Trace[l]) ELSE Ok(Trace[l])) THEN TRUE ELSE PrintT(ToJson([viol |-> "c05-wait", id |-> Trace[l].id, line |-> l]))
          /\ l' = l + 1
 TSpec == TInit /\ [][TNext]_l
 Consumed == TLCGet("stats").diameter - 1 = Len(Trace)
